@@ -18,3 +18,26 @@ package onevent
 //@   loop 1 invariant c != nil && forall(k, 0, len(config), config[k] != nil)
 //@ func setup$1
 //@   requires forall(k, 0, len(config), config[k] != nil)
+
+//@ unit hook_names props=C11 nilchecks=on filter=`onevent\.(onParse|setup|setup\$1)$`
+//@ // C11 "no directive's setup panics": the process-global hook registry panics on an empty or an already registered name
+//@ // (casket.RegisterEventHook); every `on` line must therefore register under a name that was never used before, also when
+//@ // the same line occurs twice in a Casketfile or the file is loaded twice in one process.
+//@ use casketfile/contracts_verif.go:dispenser_api
+//@ use @verif/specs/stdlib.spec:stdlib
+//@ spec neverIssued(id string) bool
+//@ // assumed (listed as trusted): a random UUID differs from every identifier issued before in this process
+//@ extern (github.com/google/uuid.UUID).String
+//@   ensures neverIssued(result)
+//@ extern github.com/tmpim/casket.RegisterEventHook
+//@   requires [hook_name_not_empty] name != ""
+//@ func onParse
+//@   requires c != nil
+//@   ensures [every_hook_has_an_identifier_never_issued_before] forall(k, 0, len(result0), result0[k] != nil && neverIssued(result0[k].ID))
+//@   loop 1 invariant c != nil && forall(k, 0, len(config), config[k] != nil && neverIssued(config[k].ID))
+//@ func setup
+//@   requires c != nil
+//@   callbacks_ready
+//@ func setup$1
+//@   requires [registered_hooks_are_the_parsed_ones] forall(k, 0, len(config), config[k] != nil && neverIssued(config[k].ID))
+//@   at call github.com/tmpim/casket.RegisterEventHook before [hook_registered_under_a_name_never_used_before] arg0 == "on-" + cfg.ID && neverIssued(cfg.ID)
